@@ -225,6 +225,7 @@ func (r *transport) handleUnrecognizedMethod(
 		if err != nil {
 			return nil, err
 		}
+		ensureHeader(resp)
 		internal.CacheStatusBypass.ApplyTo(resp.Header)
 		r.logger.LogCacheBypass(
 			"Bypass; unrecognized (safe) method, served from upstream.",
@@ -242,6 +243,7 @@ func (r *transport) handleUnrecognizedMethod(
 		refs, _ := r.cache.GetRefs(urlKey)
 		r.ci.InvalidateCache(req.URL, resp.Header, refs, urlKey)
 	}
+	ensureHeader(resp)
 	internal.CacheStatusBypass.ApplyTo(resp.Header)
 	r.logger.LogCacheBypass(
 		"Bypass; unrecognized (unsafe) method, served from upstream.",
@@ -546,7 +548,16 @@ func (r *transport) roundTripTimed(
 	resp, err = r.upstream.RoundTrip(req)
 	end = r.clock.Now()
 	if resp != nil {
+		ensureHeader(resp)
 		_ = internal.FixDateHeader(resp.Header, end)
 	}
 	return
+}
+
+// ensureHeader gives a response that came without a header map (a hand-written upstream may
+// leave it nil) an empty one: the cache sets fields on every response it returns.
+func ensureHeader(resp *http.Response) {
+	if resp.Header == nil {
+		resp.Header = make(http.Header)
+	}
 }
